@@ -2,6 +2,7 @@
 Small facts about the kanata-level tick stages when their component is at rest (used by Props/C07).
 -/
 import KVerif.Model.Kanata
+import KVerif.Lemmas.KanataSeqOff
 namespace KVerif.C07
 open KVerif.L KVerif.K
 
